@@ -13,7 +13,10 @@ Supported subset (anything else raises TranslationError naming the AST node):
   expressions: integer/bool literals, DeclRefExpr (locals, params, enum constants, global integer
                constants), MemberExpr chains rooted at a parameter or `this`, unary/binary/conditional
                operators, casts, calls to other translated functions, abs/min/max, lambdas without
-               captures, brace-initialised UInt128Struct
+               captures, brace-initialised UInt128Struct; calls `f(p)` of a configured *accessor* on a record
+               parameter (IsMaxima(e), NextVertex(e)->pt.x: pointer chasing the model does not follow) become
+               pseudo-members `p_f…`, i.e. further scalar parameters; calls with record arguments (Point64)
+               to a function translated in another unit (*extern*) pass the record's fields one by one
 Statement lists are translated continuation-style; a local assignment becomes a shadowing `let`.
 Type mapping: signed integer types -> Int (overflow freedom is a separate, proved side condition),
 unsigned 64-bit -> UInt64 (wrapping, as in C++), bool -> Bool, scoped enums -> Lean inductives.
@@ -160,13 +163,15 @@ def lc(s):
 # translator for one function
 
 class Fn:
-    def __init__(self, node, lean_name, known_fns, consts, inline_fns, throws=False):
+    def __init__(self, node, lean_name, known_fns, consts, inline_fns, throws=False, accessors=(), externs=None):
         self.node = node
         self.lean_name = lean_name
         self.known = known_fns          # C name -> lean name for calls with scalar arguments
         self.consts = consts            # global integer constants: name -> int
         self.inline_fns = inline_fns    # C name -> FunctionDecl node (inlined when args are records)
         self.throws = throws
+        self.accessors = set(accessors)  # C names of one-argument functions read as pseudo-members of their argument
+        self.externs = externs or {}     # C name -> (qualified lean name, [(param name, type)]) of another unit
         self.params = []                # (lean name, lean type) in declared order (scalars)
         self.members = {}               # lean name -> lean type, for member paths
         self.outs = []                  # names of mutated reference params
@@ -192,6 +197,9 @@ class Fn:
             elif k == "UnaryOperator" and cur.get("opcode") == "*":
                 cur = inner(cur)[0]
             elif k == "CXXOperatorCallExpr" and self.callee_name(inner(cur)[0]) in ("operator->", "operator*"):
+                cur = inner(cur)[1]
+            elif k == "CallExpr" and self.is_accessor_call(cur):
+                parts.append(self.callee_name(inner(cur)[0]))
                 cur = inner(cur)[1]
             elif k == "CXXThisExpr":
                 root = None
@@ -367,6 +375,17 @@ class Fn:
                 return "(%s %s %s)" % (nm, self.expr(args[0]), self.expr(args[1]))
             if nm in self.inline_fns and any(self.is_record(a) for a in args):
                 return self.inline_call(self.inline_fns[nm], args, n)
+            if self.is_accessor_call(n):
+                mp = self.member_path_noreg(n)
+                if mp is None:
+                    self.err(n, "accessor call not rooted at a parameter")
+                lt = lean_type(qual(n))
+                if mp in self.members and self.members[mp] != lt:
+                    self.err(n, "member type clash " + mp)
+                self.members[mp] = lt
+                return mp
+            if nm in self.externs and nm not in self.known and any(self.is_record(a) for a in args):
+                return self.extern_call(nm, args, n)
             if nm in self.known:
                 return "(%s %s)" % (self.known[nm], " ".join(self.expr(a) for a in args))
             self.err(n, "call to " + str(nm))
@@ -482,6 +501,9 @@ class Fn:
                 cur = inner(cur)[0]
             elif k in ("ImplicitCastExpr", "ParenExpr") or (k == "UnaryOperator" and cur.get("opcode") == "*"):
                 cur = inner(cur)[0]
+            elif k == "CallExpr" and self.is_accessor_call(cur):
+                parts.append(self.callee_name(inner(cur)[0]))
+                cur = inner(cur)[1]
             elif k == "DeclRefExpr" and cur["referencedDecl"]["kind"] == "ParmVarDecl":
                 root = cur["referencedDecl"]["name"]
                 break
@@ -489,6 +511,42 @@ class Fn:
                 return None
         parts.reverse()
         return "_".join([self.subst[-1].get(root, root)] + parts)
+
+    def is_accessor_call(self, n):
+        kids = inner(n)
+        return len(kids) == 2 and self.callee_name(kids[0]) in self.accessors and self.is_record(kids[1])
+
+    def extern_call(self, nm, args, n):
+        """call of a function translated in another unit.  `self.externs[nm]` = (lean name, generated signature, declared
+        C parameter names).  The generated signature lists scalar parameters by name and record parameters field by field
+        (`pt1_x pt1_y …`, alphabetically); each argument is matched to its parameter through the *declared* position."""
+        lean_name, sig, decl = self.externs[nm]
+        if len(args) != len(decl):
+            self.err(n, "extern %s: %d arguments for %d parameters" % (nm, len(args), len(decl)))
+        val = {}
+        for pn, a in zip(decl, args):
+            if not self.is_record(a):
+                ty = dict(sig).get(pn)
+                if ty is None:
+                    self.err(n, "extern %s: parameter %s not in the generated signature" % (nm, pn))
+                val[pn] = self.convert(self.expr(a), lean_type(qual(a)), ty, a)
+                continue
+            mp = self.member_path_noreg(self.strip(a))
+            if mp is None:
+                self.err(n, "record argument of extern %s not rooted at a parameter" % nm)
+            flds = [(s_, t_) for s_, t_ in sig if s_.startswith(pn + "_")]
+            if not flds:
+                self.err(n, "extern %s: record parameter %s has no fields in the generated signature" % (nm, pn))
+            for s_, t_ in flds:
+                full = mp + s_[len(pn):]
+                if full in self.members and self.members[full] != t_:
+                    self.err(n, "member type clash " + full)
+                self.members[full] = t_
+                val[s_] = full
+        missing = [s_ for s_, _ in sig if s_ not in val]
+        if missing:
+            self.err(n, "extern %s: parameters %s not supplied" % (nm, missing))
+        return "(%s %s)" % (lean_name, " ".join(val[s_] for s_, _ in sig))
 
     # ---- statements (continuation style)
     def ret(self, e):
@@ -775,7 +833,7 @@ def int_consts(objs_by_name):
     return out
 
 
-def translate_unit(tu_text, specs, consts_names=(), extra_inc=None, inline_names=(), defines=()):
+def translate_unit(tu_text, specs, consts_names=(), extra_inc=None, inline_names=(), defines=(), externs=None, want_decls=False):
     """specs: list of dicts {c: C name, lean: lean name, types: substring of qualType or None, throws: bool}"""
     consts = {}
     if consts_names:
@@ -793,18 +851,23 @@ def translate_unit(tu_text, specs, consts_names=(), extra_inc=None, inline_names
     known = {}
     out = []
     sigs = {}
+    decls = {}
     for sp in specs:
         objs = clang_ast(tu_text, sp.get("filt", sp["c"]), extra_inc, defines)
         bodies = find_bodies(objs, sp["c"], sp.get("types"))
         if not bodies:
             raise TranslationError("function %s (%s) not found in current sources" % (sp["c"], sp.get("types")))
         node = bodies[-1]
-        fn = Fn(node, sp["lean"], dict(known), consts, inline_fns, throws=sp.get("throws", False))
+        fn = Fn(node, sp["lean"], dict(known), consts, inline_fns, throws=sp.get("throws", False),
+                accessors=sp.get("accessors", ()), externs=externs)
         code, params = fn.translate()
         loc = node.get("loc", {})
         out.append("/-- C++ `%s` : `%s` -/\n%s" % (sp["c"], node["type"]["qualType"], code))
         known[sp["c"]] = sp["lean"]
         sigs[sp["lean"]] = params
+        decls[sp["lean"]] = [c["name"] for c in inner(node) if c.get("kind") == "ParmVarDecl"]
+    if want_decls:
+        return "\n".join(out), sigs, decls
     return "\n".join(out), sigs
 
 
@@ -836,7 +899,12 @@ ENGINE_SPECS = [
     dict(c="operator()", lean="LocMinSorter", filt="LocMinSorter"),
     dict(c="operator()", lean="HorzSegSorter", filt="HorzSegSorter"),
     dict(c="IntersectListSort", lean="IntersectListSort"),
+    # pointer chasing (vertex ring, local minimum) is not followed: IsMaxima(e), NextVertex(e)->pt, PrevPrevVertex(e)->pt and
+    # e.local_min->vertex->pt.y become parameters; CrossProductSign / IsCollinear are the definitions of unit Core
+    dict(c="IsValidAelOrder", lean="IsValidAelOrder", accessors=("IsMaxima", "NextVertex", "PrevPrevVertex")),
 ]
+# functions of unit Core that unit Engine calls with Point64 arguments
+ENGINE_EXTERNS = ("CrossProductSign", "IsCollinear")
 
 RECT_TU = '''#include "clipper.rectclip.cpp"
 '''
@@ -914,14 +982,23 @@ def generate(outdir):
             units.append(("Portable", PORTABLE_TU, PORTABLE_SPECS, (), pd, ()))
         except TranslationError as e:
             units.append(("Portable", None, str(e), (), None, ()))
+        core_sigs, core_decls = {}, {}
         for name, tu, specs, consts, extra, inl in units:
             path = os.path.join(outdir, name + ".lean")
             ns = "Clipper.Gen" if name != "Portable" else "Clipper.Gen.Portable"
             try:
                 if tu is None:
                     raise TranslationError(specs)
-                body, sigs = translate_unit(tu, specs, consts, extra, inl)
+                externs = None
+                if name == "Engine":
+                    # unit Engine refers to the Core definitions by their qualified names (and imports that file)
+                    externs = {c: ("Clipper.Gen." + c, core_sigs[c], core_decls[c]) for c in ENGINE_EXTERNS if c in core_sigs}
+                body, sigs, decls = translate_unit(tu, specs, consts, extra, inl, externs=externs, want_decls=True)
+                if name == "Core":
+                    core_sigs, core_decls = sigs, decls
                 text = PRELUDE.replace("namespace Clipper.Gen", "namespace " + ns) + "\n" + body + "\nend " + ns + "\n"
+                if name == "Engine":
+                    text = text.replace("import ClipperVerif.Spec.Enums", "import ClipperVerif.Spec.Enums\nimport ClipperVerif.Generated.Core", 1)
                 report["files"][name] = {"functions": list(sigs.keys()), "sha256": hashlib.sha256(text.encode()).hexdigest()}
             except TranslationError as e:
                 msg = str(e).replace('"', "'")
